@@ -52,8 +52,8 @@ struct Mat_exec {
         if constexpr (Opt::has_column_compression) { if (m.is_zero_column(b) || (m.get_column(a) == m.get_column(b))) return false; }  // C09-KF1 / same class
         m.add_to(a, b); return true;
       }
-      if (op.name == "m_zero") { if constexpr (!Opt::has_column_compression) { m.zero_entry(b, (unsigned)(op.arg(3) % NR)); return true; } else return false; }
-      if (op.name == "m_swap") { if constexpr (Opt::has_column_and_row_swaps && !Opt::has_column_compression) { unsigned r1 = (unsigned)(op.arg(1) % NR), r2 = (unsigned)(op.arg(2) % NR); if (!row_known(m, s, std::max(r1, r2))) return false; m.swap_rows(r1, r2); return true; } else return false; }
+      if (op.name == "m_zero") { if constexpr (!Opt::has_column_compression) { unsigned row = (unsigned)(op.arg(3) % NR); if (Opt::has_column_and_row_swaps && !row_known(m, s, row)) return false; m.zero_entry(b, row); return true; } else return false; }
+      if (op.name == "m_swap") { if constexpr (Opt::has_column_and_row_swaps && !Opt::has_column_compression) { unsigned r1 = (unsigned)(op.arg(1) % NR), r2 = (unsigned)(op.arg(2) % NR); if (!row_known(m, s, r1) || !row_known(m, s, r2)) return false; m.swap_rows(r1, r2); return true; } else return false; }
       return false;
     } else {
       model::Filtration& F = s.F;
@@ -89,11 +89,16 @@ struct Mat_exec {
     std::map<int, int> newid; for (int k = 0; k < F.size(); ++k) newid[F.cells[k].id] = k;
     for (auto& c : F.cells) { c.id = newid[c.id]; for (auto& f : c.bd) f.first = newid[f.first]; std::sort(c.bd.begin(), c.bd.end()); }
   }
-  bool row_known(M&, State& s, unsigned row) { (void)s; return row < (unsigned)NR && s.ncols > 0 && max_row_inserted(s) >= (int)row; }
-  int max_row_inserted(State& s) {
-    int mx = -1;
-    for (auto& op : s.hist) if (op.name == "m_ins") { sim::Rng g((uint64_t)op.arg(1) | 1); int dens = (int)g.below(4); for (int i = 0; i < NR; ++i) { if (g.below(4) < dens) { mx = std::max(mx, i); if (!Z2) g.below(P - 1); } } }
-    return mx;
+  // rows the matrix knows about: those used by inserted columns (map container: exactly those; vector: everything up to the largest)
+  std::set<int> rows_inserted(State& s) {
+    std::set<int> rows;
+    for (auto& op : s.hist) if (op.name == "m_ins") { sim::Rng g((uint64_t)op.arg(1) | 1); int dens = (int)g.below(4); for (int i = 0; i < NR; ++i) { if (g.below(4) < dens) { rows.insert(i); if (!Z2) g.below(P - 1); } } }
+    return rows;
+  }
+  int max_row_inserted(State& s) { auto rs = rows_inserted(s); return rs.empty() ? -1 : *rs.rbegin(); }
+  bool row_known(M&, State& s, unsigned row) {
+    if (row >= (unsigned)NR || s.ncols == 0) return false;
+    if constexpr (Opt::has_map_column_container) return rows_inserted(s).count((int)row) > 0; else return max_row_inserted(s) >= (int)row;
   }
 
   uint64_t digest(M& m, State& s) {
@@ -131,12 +136,11 @@ struct Mat_exec {
       if (nm == "m_ins" || nm == "m_add" || nm == "m_zero" || nm == "m_swap") {
         if (apply(*slot[a].m, slot[a].s, op)) { slot[a].s.hist.push_back(op); r.mutated = true; if (op.arg(3) % 3 == 0) for (int q = 0; q < K; ++q) check(q, "after a mutation of another slot"); } else r.skipped();
       }
-      else if ((nm == "m_copy_ctor" || nm == "m_copy_assign") && LIST_BARCODE && (r.count("probe.copy_with_list_barcode"), r.kf("C15-KF4"))) { r.skipped(); continue; }
-      else if (nm == "m_copy_ctor") { slot[b].m.reset(new M(*slot[a].m)); if (a != b) slot[b].s = slot[a].s; check(b, "copy-constructed matrix"); check(a, "source of a copy"); r.mutated = true; }
-      else if (nm == "m_copy_assign") { *slot[b].m = *slot[a].m; slot[b].s = slot[a].s; if (a == b) r.count("probe.self_assignment"); check(b, "copy-assigned matrix"); check(a, "source of a copy assignment"); r.mutated = true; }
+      else if (nm == "m_copy_ctor") { if (LIST_BARCODE) r.count("probe.copy_with_list_barcode"); slot[b].m.reset(new M(*slot[a].m)); if (a != b) slot[b].s = slot[a].s; check(b, "copy-constructed matrix"); check(a, "source of a copy"); r.mutated = true; }
+      else if (nm == "m_copy_assign") { if (LIST_BARCODE) r.count("probe.copy_with_list_barcode"); *slot[b].m = *slot[a].m; slot[b].s = slot[a].s; if (a == b) r.count("probe.self_assignment"); check(b, "copy-assigned matrix"); check(a, "source of a copy assignment"); r.mutated = true; }
       else if (nm == "m_move_ctor" || nm == "m_move_assign") {
         if (a == b) { r.skipped(); continue; }
-        r.count("probe.matrix_move"); if (r.kf("C15-KF3")) { r.skipped(); continue; }
+        r.count("probe.matrix_move");
         if (nm == "m_move_ctor") slot[b].m.reset(new M(std::move(*slot[a].m))); else *slot[b].m = std::move(*slot[a].m);
         slot[b].s = slot[a].s; slot[a].s = State(); slot[a].s.F.p = P;
         check(b, "moved-to matrix");
